@@ -694,6 +694,7 @@ func (g *gen) idVariants(x string) []string {
 	alt := altCase(base)
 	v := []string{x, strings.ToLower(x), base, base + "+", alt, alt + "+", alt + "-or-later", strings.ToLower(base) + "+", strings.ToUpper(base),
 		base + "-or-later", base + "-only", "LicenseRef-" + base, "LicenseRef-" + alt, base + "+ OR " + base + "-or-later",
+		"LicenseRef-" + strings.Repeat("n", 21+g.rng.Intn(3)), "LicenseRef-" + strings.Repeat("N.", 26+g.rng.Intn(2)) + g.pick([]string{"", "x"}),
 		"(" + x + ")", " " + x, x + "\t", x + "\n"}
 	return v
 }
